@@ -20,7 +20,7 @@ func init() {
 		Outside: []string{
 			"layer C of the design (bounded model checking of whole accepted programs against an executable Wuffs semantics): the Wuffs-AST symbolic interpreter was not built; what is checked is the checker's own arithmetic, not fact propagation through statements",
 			"operand bounds at or above 2^K; base.u64 (its type bounds do not fit the 64-bit signed model of math/big) and signed types",
-			"unary operators, `as` conversions, built-in method special cases (low_bits, high_bits, min, max, ...), slice/array index proofs",
+			"unary operators, `as` conversions, built-in method special cases (low_bits, high_bits, min, max, ...), slice/array index proofs; facts.refine is checked for one fact at a time",
 		},
 		Assume: []string{
 			"math/big.Int is modelled as a signed 64-bit bit-vector; operations whose exact result might not fit raise an obligation and the path is reported incomplete",
@@ -42,6 +42,13 @@ func init() {
 			}
 			p.Harnesses = append(p.Harnesses, HSpec{Prop: "C01", Pkg: "lang/check", Dir: "c01", Func: "VH_C01_BinOp", NeedBig: true, Aux: true, Cfg: cfg, Tier: tier,
 				Label: fmt.Sprintf("[%s u%d]", c01OpNames[op], 8<<uint(ty)), Params: map[string]int{"OP": op, "TYPE": ty, "K": k}, Reach: []string{"binop/done"}})
+		}
+	}
+	cmpNames := []string{"<>", "<", "<=", "==", ">=", ">"}
+	for op, name := range cmpNames {
+		for side := 0; side < 2; side++ {
+			p.Harnesses = append(p.Harnesses, HSpec{Prop: "C01", Pkg: "lang/check", Dir: "c01", Func: "VH_C01_Refine", NeedBig: true, Aux: true, Cfg: cfg,
+				Label: fmt.Sprintf("[%s side=%d]", name, side), Params: map[string]int{"OP": op, "SIDE": side, "K": 10}, ParamsT: map[string]int{"K": 20}, Reach: []string{"refine/done"}})
 		}
 	}
 	register(p)
